@@ -16,13 +16,39 @@ EXTRA = {'C04-A': ['C18', 'C12'], 'C05-B': ['C11'], 'C10-A': ['C11'], 'C12-A': [
          'C09-D': ['C04']}
 
 
+def write_table(sd):
+    """RESULTS.md from the meta.json files (the per-defect results recorded by the last evaluation
+    of each defect)"""
+    with open(os.path.join(sd, 'RESULTS.md'), 'w') as f:
+        f.write('# Seeded defects: which quick checks catch which (seed 0)\n\n')
+        f.write('| seeded defect | round | caught by | first monitor that fired | not caught by (also run) |\n|---|---|---|---|---|\n')
+        n = c = 0
+        for name in sorted(os.listdir(sd)):
+            mp = os.path.join(sd, name, 'meta.json')
+            if name.startswith('_') or not os.path.exists(mp):
+                continue
+            meta = json.load(open(mp))
+            caught, missed, mons = meta.get('caught_by', []), meta.get('missed_by', []), \
+                meta.get('first_monitor', {})
+            n += 1
+            c += 1 if name.split('-')[0] in caught else 0
+            f.write(f"| {name} | {meta.get('round', 1)} | {', '.join(caught) or '**none**'} | "
+                    f"{'; '.join(k + ': ' + v for k, v in mons.items())} | {', '.join(missed)} |\n")
+        f.write(f'\n{c} of {n} filed defects are caught by the quick tier of the property they break.\n')
+        obs = os.path.join(sd, '_obsolete')
+        if os.path.isdir(obs):
+            f.write('\nNo longer evaluated (see their meta.json): ' + ', '.join(sorted(os.listdir(obs))) + '\n')
+
+
 def main():
+    if sys.argv[1:] == ['--table-only']:
+        return write_table(os.path.join(VERIF, 'seeded'))
     only = sys.argv[1:] or None
     rows = []
     sd = os.path.join(VERIF, 'seeded')
     for name in sorted(os.listdir(sd)):
         d = os.path.join(sd, name)
-        if not os.path.isdir(d) or (only and name not in only):
+        if not os.path.isdir(d) or name.startswith('_') or (only and name not in only):
             continue
         prop = name.split('-')[0]
         props = [prop] + EXTRA.get(name, [])
@@ -49,13 +75,7 @@ def main():
         json.dump(meta, open(mp, 'w'), indent=1)
         rows.append((name, caught, missed, monitors))
         print(name, 'caught', caught, 'missed', missed, flush=True)
-    if not only:
-        with open(os.path.join(sd, 'RESULTS.md'), 'w') as f:
-            f.write('# Seeded defects: which quick checks catch which (seed 0)\n\n')
-            f.write('| seeded defect | caught by | first monitor that fired | not caught by (also run) |\n|---|---|---|---|\n')
-            for name, caught, missed, mons in rows:
-                f.write(f"| {name} | {', '.join(caught) or '**none**'} | "
-                        f"{'; '.join(k + ': ' + v for k, v in mons.items())} | {', '.join(missed)} |\n")
+    write_table(sd)
 
 
 if __name__ == '__main__':
